@@ -671,7 +671,7 @@ fn line_of(tcx: TyCtxt<'_>, sp: Span) -> i128 {
 fn public_paths<'tcx>(tcx: TyCtxt<'tcx>) -> J {
     // Every path under the local crate root reachable through public module children, with the
     // names of associated items of types and traits (inherent + trait items).
-    let mut out: BTreeMap<String, J> = BTreeMap::new();
+    let mut out: BTreeMap<String, Vec<J>> = BTreeMap::new();
     let mut seen: BTreeSet<(DefId, String)> = BTreeSet::new();
     let mut queue: VecDeque<(DefId, String, usize)> = VecDeque::new();
     let root = LOCAL_CRATE.as_def_id();
@@ -719,17 +719,14 @@ fn public_paths<'tcx>(tcx: TyCtxt<'tcx>) -> J {
                 }
                 _ => {}
             }
-            out.insert(
-                p,
-                J::Obj(vec![
-                    ("kind", s(format!("{:?}", kind))),
-                    ("def", s(path(tcx, did))),
-                    ("assoc", J::Arr(assoc)),
-                ]),
-            );
+            out.entry(p).or_default().push(J::Obj(vec![
+                ("kind", s(format!("{:?}", kind))),
+                ("def", s(path(tcx, did))),
+                ("assoc", J::Arr(assoc)),
+            ]));
         }
     }
-    J::Map(out)
+    J::Map(out.into_iter().map(|(k, v)| (k, J::Arr(v))).collect())
 }
 
 struct Dump;
